@@ -856,3 +856,73 @@ theorem original_unharmed (w : World) (a : Nat) (lines : List String)
   history_frame w lines a h
 
 end Gkv
+
+/-
+`#print axioms` (Lean 4.33.0):
+
+'Gkv.stepTokens_cases' depends on axioms: [propext, Classical.choice, Quot.sound]
+'Gkv.stepTokens_frame' depends on axioms: [propext, Classical.choice, Quot.sound]
+'Gkv.step_frame' depends on axioms: [propext, Classical.choice, Quot.sound]
+'Gkv.history_frame' depends on axioms: [propext, Classical.choice, Quot.sound]
+'Gkv.reads_change_nothing' depends on axioms: [propext, Classical.choice, Quot.sound]
+'Gkv.readonly_rejects_set' depends on axioms: [propext, Classical.choice, Quot.sound]
+'Gkv.readonly_rejects_del' depends on axioms: [propext, Classical.choice, Quot.sound]
+'Gkv.readonly_rejects_flush' depends on axioms: [propext, Classical.choice, Quot.sound]
+'Gkv.close_keeps_files' depends on axioms: [propext, Classical.choice, Quot.sound]
+'Gkv.revert_readonly_keeps_file_bytes' depends on axioms: [propext, Classical.choice, Quot.sound]
+'Gkv.snap_is_value' depends on axioms: [propext, Classical.choice, Quot.sound]
+'Gkv.snapshot_isolated' depends on axioms: [propext, Classical.choice, Quot.sound]
+'Gkv.original_unharmed' depends on axioms: [propext, Classical.choice, Quot.sound]
+
+Generator of `stepTokens_cases` (python3; writes the theorem text to ./cases.lean; paste it over
+the theorem above when the arm list of `stepTokens` changes):
+
+import re,sys
+src=open('/verif/lean/Gkv/Model/World.lean').read()
+i=src.index('def stepTokens (w : World)')
+j=src.index('def stepTokens2')
+body=src[i:j]
+arms=re.findall(r'^  \| \["([a-z]+)"((?:, \w+)*)\] =>', body, re.M)
+ops=[]
+for tok,args in arms:
+    ar = len([a for a in args.split(',') if a.strip()])
+    for o in ops:
+        if o[0]==tok:
+            o[1].append(ar); break
+    else:
+        ops.append((tok,[ar]))
+def hname(op, ar, multi): return f"h_{op}{ar}" if multi else f"h_{op}"
+out=[]
+out.append("theorem stepTokens_cases (w : World) (P : List String → Prop)")
+out.append("    (hbad : ∀ ts, stepTokens w ts = (w, \"bad-op\") → P ts)")
+for op, ars in ops:
+    for ar in ars:
+        xs=[f"a{i+1}" for i in range(ar)]
+        lst=", ".join([f'"{op}"']+xs)
+        q = ("∀ "+" ".join(xs)+", ") if ar else ""
+        out.append(f"    ({hname(op,ar,len(ars)>1)} : {q}P [{lst}])")
+out.append("    (ts : List String) : P ts := by")
+out.append("  match ts with")
+out.append("  | [] => exact hbad _ (by step_reduce; rfl)")
+out.append("  | a :: rest =>")
+for i,(op,ars) in enumerate(ops):
+    out.append(f'    by_cases h{i+1} : a = "{op}"')
+    out.append(f"    · subst h{i+1}")
+    mx=max(ars)
+    pat="r"
+    for j in range(mx,-1,-1):
+        pat=f"_ | ⟨x{j+1}, {pat}⟩"
+    out.append(f"      rcases rest with {pat}")
+    for j in range(0,mx+1):
+        if j in ars:
+            xs=" ".join(f"x{t+1}" for t in range(j))
+            out.append(f"      · exact {hname(op,j,len(ars)>1)} {xs}".rstrip())
+        else:
+            out.append("      · exact hbad _ (by step_reduce; rfl)")
+    out.append("      · exact hbad _ (by step_reduce; rfl)")
+rws=", ".join(f"dif_neg h{i+1}" for i in range(len(ops)))
+out.append(f"    exact hbad _ (by step_reduce; rw [{rws}])")
+open('cases.lean','w').write("\n".join(out)+"\n")
+print(len(ops), sum(len(a) for _,a in ops), file=sys.stderr)
+print(" ".join(o for o,_ in ops), file=sys.stderr)
+-/
